@@ -40,8 +40,11 @@ func c10Scenarios(tier string) []*Scenario {
 						cause = "gstop"
 					}
 					opt := Options{Level: "io", Bound: 1, DevOK: onlyFaults}
+					if len(set) <= 1 && nAfter == 1 {
+						opt = Options{Level: "io", Bound: 2, DevOK: oneFaultAnyOrder}
+					}
 					if thorough {
-						opt = Options{Level: "io", Bound: 2, DevOK: faultThenAny}
+						opt = Options{Level: "io", Bound: 2, DevOK: oneFaultAnyOrder}
 					}
 					var wls []Workload
 					for _, k := range set {
